@@ -6,6 +6,7 @@ package main
 
 import (
 	"go/token"
+	"go/types"
 	"sort"
 
 	"golang.org/x/tools/go/ssa"
@@ -111,7 +112,102 @@ type fact struct {
 // successor block of the branch has the branching block as its only predecessor and
 // dominates in's block).
 func guards(in ssa.Instruction) []fact {
-	return guardsOfBlock(in.Block())
+	out := guardsOfBlock(in.Block())
+	return append(out, inheritedFacts(in.Parent(), 0)...)
+}
+
+// callSiteIndex: static call sites of module functions that are only ever called
+// statically (helpers). Built once per loaded program.
+type callSiteIndex struct {
+	sites     map[*ssa.Function][]ssa.Instruction
+	addrTaken map[*ssa.Function]bool
+	iface     map[*ssa.Function]bool // methods that may be invoked through an interface of the module
+}
+
+var curSites *callSiteIndex
+
+func buildCallSiteIndex(p *Prog) {
+	ix := &callSiteIndex{sites: map[*ssa.Function][]ssa.Instruction{}, addrTaken: map[*ssa.Function]bool{}, iface: map[*ssa.Function]bool{}}
+	ifaces := moduleInterfaces(p)
+	for _, f := range p.Funcs {
+		if f.Parent() != nil || f.Signature.Recv() == nil {
+			continue
+		}
+		rt := f.Signature.Recv().Type()
+		for _, it := range ifaces {
+			has := false
+			for i := 0; i < it.NumMethods(); i++ {
+				if it.Method(i).Name() == f.Name() {
+					has = true
+				}
+			}
+			if has && (types.Implements(rt, it) || types.Implements(types.NewPointer(rt), it)) {
+				ix.iface[f] = true
+			}
+		}
+	}
+	for _, f := range p.Funcs {
+		instrsOf(f, func(in ssa.Instruction) {
+			var calleeV ssa.Value
+			if ci, ok := in.(ssa.CallInstruction); ok && !ci.Common().IsInvoke() {
+				calleeV = ci.Common().Value
+				if sc := ci.Common().StaticCallee(); sc != nil && inModule(sc) {
+					if _, plain := in.(*ssa.Call); plain {
+						ix.sites[sc] = append(ix.sites[sc], in)
+					} else {
+						ix.addrTaken[sc] = true // go / defer: facts of the spawning point do not carry over
+					}
+				}
+			}
+			for _, op := range in.Operands(nil) {
+				if *op == nil || *op == calleeV {
+					continue
+				}
+				if fn, ok := (*op).(*ssa.Function); ok {
+					ix.addrTaken[fn] = true
+				}
+			}
+		})
+	}
+	curSites = ix
+}
+
+// inheritedFacts: for an unexported helper that is only called statically, the facts
+// that hold at every one of its call sites also hold throughout the helper (so that
+// extracting statements into a helper does not lose the guards established by the caller).
+func inheritedFacts(f *ssa.Function, depth int) []fact {
+	if curSites == nil || f == nil || depth > 3 || f.Parent() != nil {
+		return nil
+	}
+	if obj := f.Object(); obj == nil || obj.Exported() {
+		return nil
+	}
+	if curSites.addrTaken[f] {
+		return nil
+	}
+	sites := curSites.sites[f]
+	if len(sites) == 0 {
+		return nil
+	}
+	var acc []fact
+	for i, s := range sites {
+		fs := append(guardsOfBlock(s.Block()), inheritedFacts(s.Parent(), depth+1)...)
+		if i == 0 {
+			acc = fs
+			continue
+		}
+		var keep []fact
+		for _, a := range acc {
+			for _, b := range fs {
+				if a.Cond == b.Cond && a.Val == b.Val {
+					keep = append(keep, a)
+					break
+				}
+			}
+		}
+		acc = keep
+	}
+	return acc
 }
 
 func guardsOfBlock(blk *ssa.BasicBlock) []fact {
